@@ -140,6 +140,35 @@ def oracle(run, sec, case):
                 gotok = repr(e)
             if gotok != refok or (refok and snap(c5) != ref):
                 run.fail("int-delete-as-list", case, dict(key=k))
+    # membership of ITEMS, and the dict-style views: list order, session mnemonics as keys
+    from lasio import HeaderItem
+    for x in items:
+        try:
+            if x not in sec:
+                run.fail("item-membership", case, dict(item=x.mnemonic))
+        except Exception as e:
+            run.fail("item-membership", case, dict(item=x.mnemonic, exc=repr(e)))
+    try:
+        if HeaderItem("ZZ-not-there") in sec:
+            run.fail("item-membership-absent", case, None)
+    except Exception as e:
+        run.fail("item-membership-absent", case, dict(exc=repr(e)))
+    try:
+        ks = [i.mnemonic for i in items]
+        views = [sec.keys(), list(sec.iterkeys()), [i for i in sec.values()], list(sec.itervalues()), sec.items(), list(sec.iteritems())]
+        exp = [ks, ks, items, items, list(zip(ks, items)), list(zip(ks, items))]
+        for got, want in zip(views, exp):
+            if len(got) != len(want) or any((a is not b) if not isinstance(a, (str, tuple)) else
+                                            (a != b if isinstance(a, str) else (a[0] != b[0] or a[1] is not b[1])) for a, b in zip(got, want)):
+                run.fail("dict-views", case, dict(keys=ks))
+                break
+        for x in items:       # item["mnemonic"] etc. read the attributes
+            if (x["mnemonic"], x["unit"], x["value"], x["descr"]) != (x.mnemonic, x.unit, x.value, x.descr) or x["original_mnemonic"] != x.original_mnemonic:
+                run.fail("item-getitem", case, dict(item=x.mnemonic))
+    except Exception as e:
+        run.fail("dict-views", case, dict(exc=repr(e)))
+    if snap(sec) != before:
+        run.fail("views-change-section", case, dict(before=before, after=snap(sec)))
     for sl in (slice(0, 2), slice(1, None), slice(None, None, 2), slice(-2, None), slice(2, None), slice(None, None, -1), slice(1, 4, 2)):
         got = sec[sl]
         exp = list.__getitem__(sec, sl)
@@ -148,6 +177,45 @@ def oracle(run, sec, case):
         if snap(sec) != before:      # taking a slice is a read: the section (session names included) stays as it is
             run.fail("slice-changes-section", case, dict(slice=str(sl), before=before, after=snap(sec)))
             break
+
+
+def curve_section_get(run):
+    """`get()` on a section of CurveItems: a string default becomes the description of a new CurveItem whose data is a NaN array of
+    the first curve's length; without add=True the section is untouched, with add=True exactly one item is appended"""
+    import numpy as np
+    from lasio import CurveItem, SectionItems
+    for n in (0, 1, 3):
+        for names in (["DEPT"], ["DEPT", "A", "A"], []):
+            for add in (False, True):
+                for key in ("A", "NEW", "dept", ""):
+                    for tr in (False, True):
+                        sec = SectionItems()
+                        for k, nm in enumerate(names):
+                            sec.append(CurveItem(nm, "u", "", "d%d" % k, np.arange(n, dtype=float) + k))
+                        sec.mnemonic_transforms = tr
+                        case = {"curve-section-get": {"n": n, "names": names, "add": add, "key": key, "tr": tr}}
+                        run.case(case, nontrivial=bool(names), tags=["curve-get"])
+                        before = [(i.original_mnemonic, i.mnemonic, i.descr, (list(i.data) if getattr(i, 'data', None) is not None else None)) for i in list.__iter__(sec)]
+                        present = key in sec
+                        try:
+                            it = sec.get(key, default="dflt", add=add)
+                        except Exception as e:
+                            if names or not isinstance(e, IndexError):      # (an empty section has no first curve to take the length from)
+                                run.fail("curve-get-raises", case, dict(exc=repr(e)))
+                            continue
+                        after = [(i.original_mnemonic, i.mnemonic, i.descr, (list(i.data) if getattr(i, 'data', None) is not None else None)) for i in list.__iter__(sec)]
+                        if present or not add:
+                            if after != before or (present and it is not sec[key]):
+                                run.fail("curve-get-pure", case, dict(before=before, after=after))
+                        else:
+                            ok = len(after) == len(before) + 1 and list.__getitem__(sec, len(sec) - 1) is it and \
+                                [a[0] for a in after[:-1]] == [b[0] for b in before] and [a[3] for a in after[:-1]] == [b[3] for b in before]
+                            if not names:       # an empty section: a plain HeaderItem with the default as its value
+                                ok = ok and type(it).__name__ == "HeaderItem" and it.value == "dflt"
+                            else:
+                                ok = ok and it.descr == "dflt" and len(it.data) == n and all(x != x for x in it.data)
+                            if not ok or it.original_mnemonic != key:
+                                run.fail("curve-get-add", case, dict(before=before, after=[(a[0], a[1], a[2], repr(a[3])) for a in after]))
 
 
 def one(run, seq, tr, kind, with_oracle=True):
@@ -187,6 +255,7 @@ def one(run, seq, tr, kind, with_oracle=True):
 def run(run):
     batch = []
     LIM = 256
+    curve_section_get(run)
 
     def flush():
         if not batch or run.model is None:
